@@ -365,3 +365,54 @@ def extra_obligations(tier):
                         detail='extraction failed: %s: %s' % (type(ex).__name__, ex), key='constant:conversion_factor',
                         function='ComputeStructuralGoBias.__init__'))
     return obs
+
+
+# ------------------------------------------------------------------ get_go_type_from_attributes: which bead types are Go sites
+GNd, GAt, GKw = TKey('GNd'), TKey('GAt'), TKey('GKw')
+
+
+def setup_ggt(cx):
+    eng = cx.eng
+    NODES = cx.val('NODES', TSeq(GNd))                      # molecule.nodes, in order
+    cx.spec_env['NODES'] = NODES
+    attrs_of = cx.uf('attrs_of', [GNd], GAt)
+    atype = cx.uf('atype', [GAt], TStr)                    # attrs['atype']
+    am = cx.uf('am', [GAt, GKw], TBool)                    # attributes_match(attrs, kwargs) (its contract: proved under C05)
+    cx.spec_env['attributes_match'] = Builtin(lambda e, a, k: wrap(TBool, am(to_z3(a, GAt), to_z3(k, GKw))), 'attributes_match')
+    eng.methods[('GAt', '__getitem__')] = lambda e, a, k: SV(TStr, atype(to_z3(a, GAt))) if k == 'atype' else \
+        (_ for _ in ()).throw(EngineError('attrs[%r]' % (k,)))
+    eng.methods[('GKw', '__getitem__')] = lambda e, a, k: 'value' if k in ('resid', 'chain') else \
+        (_ for _ in ()).throw(EngineError('kwargs[%r]' % (k,)))
+    nodes = Obj('NodeView', __getitem__=Builtin(lambda e, n: SV(GAt, attrs_of(to_z3(n, GNd))), 'molecule.nodes[]'))
+    nodes.__dict__['iter'] = NODES
+    kw = cx.val('kwargs', GKw)
+    cx.spec_env['KW'] = kw
+    return dict(molecule=Obj('Molecule', nodes=nodes), prefix=cx.val('prefix', TStr), kwargs=kw)
+
+
+SPEC_GGT = {
+    # the node is a Go site of this molecule: its attributes match and its type is "<prefix>_..."
+    'is_site': "lambda n: am(attrs_of(n), KW) and atype(attrs_of(n)).startswith(prefix + '_')",
+}
+GGT_INV = [
+    "len(g_src) == len(__yielded__)",
+    "forall(lambda q: implies(0 <= q and q < len(g_src), 0 <= g_src[q] and g_src[q] < {I} and is_site(NODES[g_src[q]]) and "
+    "   __yielded__[q] == atype(attrs_of(NODES[g_src[q]]))))",
+    "forall(lambda p, q: implies(0 <= p and p < q and q < len(g_src), g_src[p] < g_src[q]))",
+    "forall(lambda i: implies(0 <= i and i < {I} and is_site(NODES[i]), i in g_pos and 0 <= g_pos[i] and g_pos[i] < len(g_src) and "
+    "   g_src[g_pos[i]] == i))",
+]
+go_types = FunctionContract(
+    'vermouth/rcsu/go_utils.py', 'get_go_type_from_attributes', 'C18', setup=setup_ggt, spec_defs=SPEC_GGT,
+    spec_env=dict(GNd=GNd), result_ty=TSeq(TStr),
+    locals=dict(g_src=TSeq(TInt), g_pos=TMap(TInt, TInt)), ghost_at={'entry': "g_src = []\ng_pos = {}"},
+    ensures=["False"],                                      # the generator never ends normally: after the last node it raises
+    # what has been yielded when the KeyError comes: the types of exactly the Go sites, in the molecule's order
+    raises={'KeyError': [x.format(I='len(NODES)') for x in GGT_INV]},
+    loops={'L1': LoopSpec(inv=[x.format(I='_i') for x in GGT_INV], modifies=['__yielded__', 'g_src', 'g_pos'],
+                          locals=dict(g_y0=TInt), ghost_pre="g_y0 = len(__yielded__)",
+                          ghost_end="if len(__yielded__) > g_y0:\n    g_src.append(_i)\n    g_pos[_i] = g_y0")},
+    canary=[("attrs['atype'].startswith(prefix + '_')", "attrs['atype'].startswith(prefix)"),
+            ("if attributes_match(attrs, kwargs) and", "if attributes_match(attrs, kwargs) or")],
+)
+CONTRACTS.append(go_types)
